@@ -170,6 +170,52 @@ Local Close Scope string_scope.
 Definition render_msgs_ok : bool :=
   forallb rstep_msg_ok (c20_render_export ++ c20_render_export_page ++ c20_render_normal ++ c20_render_normal_drawing).
 
+(* ---- --languages (round 5, seed C20-16): the list handed to usvg::Options::languages, as an interpretation of the
+   SOURCE-DERIVED item operations (Gen/C20Cli.v <tool>_lang_item_ops / _separator / _all_items_kept).  The library matches
+   systemLanguage exactly and case-sensitively, so the tools must hand over every item as written (surrounding blanks removed). *)
+Local Open Scope string_scope.
+Definition is_blank (c : Ascii.ascii) : bool := match Ascii.nat_of_ascii c with 32%nat | 9%nat | 10%nat | 13%nat => true | _ => false end.
+Fixpoint ltrim (s : string) : string := match s with String c r => if is_blank c then ltrim r else s | EmptyString => s end.
+Fixpoint srev_acc (s acc : string) : string := match s with String c r => srev_acc r (String c acc) | EmptyString => acc end.
+Definition srev (s : string) : string := srev_acc s EmptyString.
+Definition strim (s : string) : string := srev (ltrim (srev (ltrim s))).
+Definition lower_ascii (c : Ascii.ascii) : Ascii.ascii :=
+  let n := Ascii.nat_of_ascii c in if (Nat.leb 65 n && Nat.leb n 90)%bool then Ascii.ascii_of_nat (n + 32) else c.
+Fixpoint slower (s : string) : string := match s with String c r => String (lower_ascii c) (slower r) | EmptyString => s end.
+Fixpoint ssplit_acc (sep : Ascii.ascii) (s cur : string) : list string :=
+  match s with
+  | EmptyString => [srev cur]
+  | String c r => if Ascii.eqb c sep then srev cur :: ssplit_acc sep r EmptyString else ssplit_acc sep r (String c cur)
+  end.
+Definition ssplit (sep : string) (s : string) : list string :=
+  match sep with String c EmptyString => ssplit_acc c s EmptyString | _ => [s] end.
+(* what each recognised method does to an item; an unknown method has no model *)
+Definition lang_op_sem (op : string) : option (string -> string) :=
+  if String.eqb op "trim" then Some strim
+  else if String.eqb op "to_string" || String.eqb op "to_owned" || String.eqb op "into" then Some (fun x => x)
+  else if String.eqb op "to_lowercase" || String.eqb op "to_ascii_lowercase" then Some slower
+  else None.
+Fixpoint lang_apply (ops : list string) (x : string) : option string :=
+  match ops with
+  | [] => Some x
+  | o :: r => match lang_op_sem o with Some f => lang_apply r (f x) | None => None end
+  end.
+Fixpoint opt_map_all {A B} (f : A -> option B) (l : list A) : option (list B) :=
+  match l with
+  | [] => Some []
+  | x :: r => match f x, opt_map_all f r with Some y, Some ys => Some (y :: ys) | _, _ => None end
+  end.
+Definition cli_languages (sep : string) (ops : list string) (kept passed : bool) (arg : string) : option (list string) :=
+  if kept && passed then opt_map_all (lang_apply ops) (ssplit sep arg) else None.
+(* the documented meaning: comma-separated items, blanks around an item ignored, nothing else changed *)
+Definition spec_languages (arg : string) : list string := map strim (ssplit "," arg).
+(* ops that keep an item as written *)
+Definition lang_op_transparent (op : string) : bool :=
+  String.eqb op "trim" || String.eqb op "to_string" || String.eqb op "to_owned" || String.eqb op "into".
+Definition lang_ops_faithful (sep : string) (ops : list string) (kept passed : bool) : bool :=
+  String.eqb sep "," && forallb lang_op_transparent ops && (Nat.eqb (List.length (filter (String.eqb "trim") ops)) 1) && kept && passed.
+Local Close Scope string_scope.
+
 (* ---- --export-id: the transform handed to render_node and the place of the node on the page ----------------
    export_fit_source / c20_page_offset_scaled are source-derived (fixes bd4cb7e, 85fde2f). *)
 Definition export_ts (a : cli_args) (docsize : Q * Q) (w h : Q) : ts :=
